@@ -14,12 +14,13 @@ Section Controls.
   Definition mask01 (m : bool) : T := if m then n1 else n0.
 
   (* what the user supplied for one control: a number of degrees (already unit-converted) or a spanwise table *)
-  Inductive cinput := CConst (deg : T) | CTable (tbl : list (T * T)).
+  Inductive cinput := CConst (deg : T) | CTable (tbl : list (T * T)) | CFun (f : T -> T).
   (* lines 1351-1361: value of the input at one control point *)
   Definition input_at (c : cinput) (m : bool) (s : T) : T :=
     match c with
     | CConst d => d
     | CTable tbl => if m then interp s tbl else n0
+    | CFun f => f s                 (* 1380-1381: a function of span is evaluated at the control point; the span mask follows in mix_sum *)
     end.
 
   (* one entry of control_mixing, in dictionary order: (is the control symmetric, mixing factor, input) *)
@@ -45,7 +46,7 @@ Section Controls.
 
   (* flap chord fraction at one control point, lines 654-656: zero outside the surface *)
   Definition flap_fraction (root tip : T) (cf : cinput) (s : T) : T :=
-    if in_surface root tip s then (match cf with CConst c => c | CTable tbl => interp s tbl end) else n0.
+    if in_surface root tip s then (match cf with CConst c => c | CTable tbl => interp s tbl | CFun f => f s end) else n0.
 
   (* airplane.py 939-940: the stored control state is replaced, missing controls become 0 *)
   Fixpoint replace_state {K} (eqb : K -> K -> bool) (names : list K) (given : list (K * T)) : list (K * T) :=
@@ -61,12 +62,14 @@ Section Controls.
     match c with
     | CConst v => CConst (v + d)
     | CTable tbl => CTable (map (fun p => (fst p + n0, snd p + d)) tbl)
+    | CFun f => CFun f              (* (function + float raises in the code: not a case of the analysis) *)
     end.
   (* wing_segment.py 1375: a table is accepted when its first and last span fractions are the root and tip of the control surface *)
   Definition table_ends_ok (root tip : T) (c : cinput) : bool :=
     match c with
     | CConst _ => true
     | CTable tbl => match tbl with [] => false | p :: _ => (fst p =? root) && (fst (last tbl p) =? tip) end
+    | CFun _ => true
     end.
 End Controls.
 Arguments cinput T : clear implicits.
